@@ -5,6 +5,7 @@ import (
 	"fmt"
 	"github.com/aml-org/amf-custom-validator/internal/parser/path"
 	y "github.com/aml-org/amf-custom-validator/internal/parser/yaml"
+	"strconv"
 )
 
 type NumericRule struct {
@@ -30,7 +31,7 @@ func (r NumericRule) String() string {
 		return fmt.Sprintf("%s%s(%s,'%s',%d)", negation, r.Name, r.Variable.Name, r.Path.Source(), i)
 	}
 	f, _ := r.Argument.Float()
-	return fmt.Sprintf("%s%s(%s,'%s',%f)", negation, r.Name, r.Variable.Name, r.Path.Source(), f)
+	return fmt.Sprintf("%s%s(%s,'%s',%s)", negation, r.Name, r.Variable.Name, r.Path.Source(), FloatLiteral(f))
 }
 
 func (r NumericRule) IntArgument() (int, error) {
@@ -47,7 +48,17 @@ func (r NumericRule) StringArgument() string {
 		return fmt.Sprintf("%d", i)
 	}
 	f, _ := r.Argument.Float()
-	return fmt.Sprintf("%f", f)
+	return FloatLiteral(f)
+}
+
+// FloatLiteral writes a float argument with six decimals when that is exact and with all the digits it needs
+// otherwise: a bound such as 1.0000001 must not be compared as 1.000000
+func FloatLiteral(f float64) string {
+	s := fmt.Sprintf("%f", f)
+	if back, err := strconv.ParseFloat(s, 64); err == nil && back == f {
+		return s
+	}
+	return strconv.FormatFloat(f, 'f', -1, 64)
 }
 
 func newNumericComparison(negated bool, name string, operation CardinalityOperation, variable Variable, path path.PropertyPath, argument *y.Yaml) (NumericRule, error) {
